@@ -184,11 +184,12 @@ struct Interp {
         }
         if (n == "append" || n == "prepend") {
             int o = other_slot(op.i(0));
+            if (((op.i(0) % 7) + 7) % 7 == 6) { o = cur; ctx.label(n + ":the-same-object-on-both-sides"); interesting = true; }   // x.append(x): a value operation like any other
             Snap before = snap(cur);
             int r = n == "append" ? LA(c07_append(cur, o)) : LA(c07_prepend(cur, o));
             if (o < 0) { ctx.label(n + ":null-other"); VT_CHECK(ctx, r == 0, "mismatch", "null-other-accepted; " << n << "(NULL) returned TRUE"); require_unchanged(cur, before, n.c_str()); return; }
             VT_CHECK(ctx, r == 1, "mismatch", "return; " << n << " returned FALSE");
-            if (n == "append") mo.b += m[o].b; else mo.b = m[o].b + mo.b;
+            { std::string ob = m[o].b; if (n == "append") mo.b += ob; else mo.b = ob + mo.b; }
             mutations++;
             if (was_null && !m[o].b.empty()) { ctx.label("first-growth-on-empty:" + n); interesting = true; }
             return;
@@ -460,7 +461,7 @@ rc::Gen<Op> gen_op() {
         int k = (int)*range(0, 99);
         Op o;
         if (k < 5) { o.name = "helper"; o.ints = {*range(0, 2), *range(0, 4) == 0 ? 1 : 0, *gen_rep()}; o.strs = {*gen_unit()}; return o; }
-        if (k < 11) { o.name = *range(0, 1) ? "append" : "prepend"; o.ints = {*range(0, 2)}; return o; }
+        if (k < 11) { o.name = *range(0, 1) ? "append" : "prepend"; o.ints = {*range(0, 6) == 6 ? 6 : *range(0, 2)}; return o; }
         if (k < 27) { o.name = *range(0, 1) ? "append_ptr" : "prepend_ptr"; o.ints = {*gen_rep(), *range(0, 14) == 0 ? 1 : 0}; o.strs = {*gen_unit()}; return o; }
         if (k < 41) {
             bool ptr = *range(0, 1) == 1;
